@@ -116,6 +116,52 @@ func c04Extreme(r *mon.Run) {
 		})
 	}
 	r.FloorFam("extreme-randomness", 8)
+	// one read of the random source FAILS: the holder may be refused a proof; a proof that is handed out all the same must
+	// verify, report the chosen attribute and hide the others (a failed draw must not become the randomiser 0)
+	for _, issig := range []bool{false, true} {
+		failedDraws(r.Pick(10, 20), func(desc string, hit func() bool) {
+			ctx, nonce := bi(1), bi(55556)
+			var list gabi.ProofList
+			var perr error
+			pv, _ := mon.Try(func() {
+				b, e := cred.C.CreateDisclosureProofBuilder([]int{2}, nil, false)
+				if e != nil {
+					perr = e
+					return
+				}
+				list, perr = gabi.ProofBuilderList{b}.BuildProofList(ctx, nonce, issig)
+			})
+			if !hit() {
+				return
+			}
+			d := fmt.Sprintf("issig=%v %s", issig, desc)
+			r.Distinct("failed-draw", d)
+			if pv != nil {
+				r.Eval("failed-draw", "panic") // a crash under a failing random source is outside this property
+				return
+			}
+			if perr != nil || len(list) != 1 {
+				r.Eval("failed-draw", "error")
+				return
+			}
+			dd, isD := list[0].(*gabi.ProofD)
+			ok, _, _ := verifyList(cloneList(list), []*gabikeys.PublicKey{key.PK}, ctx, nonce, issig, nil)
+			ok = ok && isD && len(dd.ADisclosed) == 1 && dd.ADisclosed[2] != nil && dd.ADisclosed[2].Cmp(cred.Ledger[2]) == 0 && len(dd.AResponses) == 3
+			r.Eval("failed-draw", outcome(ok, nil))
+			if !ok {
+				r.Violation("C04/honest-proof-rejected/failed-draw", "a proof handed out although a read of the random source failed does not verify or reports other values ("+d+")", map[string]any{"case": d})
+				return
+			}
+			for i, s := range dd.AResponses {
+				rnd := sub(s, mul(dd.C, cred.NormLedger(i)))
+				if rnd.BitLen() < 64 {
+					r.Violation("C04/hidden-value-not-hidden/failed-draw", fmt.Sprintf("response %d of a proof made while a read of the random source failed is c*m plus %s: the hidden value follows from the proof (%s)", i, rnd.String(), d),
+						map[string]any{"case": d, "proof": dumpD(dd)})
+				}
+			}
+		})
+	}
+	r.FloorFam("failed-draw", 8)
 }
 
 func runC04(r *mon.Run) {
